@@ -490,7 +490,15 @@ fn body_c09<D: Dd>(c: &DdCase, t: &Table, root_sp: &SubProblem<St>, lb: Cost, _l
         }
         // next node: oldest first (siblings of one diagram: maximal re-convergence) or a seeded choice;
         // skipped when the cache says so (as at pop time)
-        let k = if c.hist_seed % 2 == 0 { 0 } else { r.below(open.len() as u64) as usize };
+        let k = match c.hist_seed % 3 {
+            0 => 0,
+            1 => r.below(open.len() as u64) as usize,
+            _ => {
+                // dive: deepest open node, newest among equals (re-visits a state first explored with a worse value)
+                let dmax = open.iter().map(|o| o.depth).max().unwrap();
+                open.iter().rposition(|o| o.depth == dmax).unwrap()
+            }
+        };
         node = open.remove(k);
         if !cache.must_explore(&node) {
             note("skipped_by_cache");
